@@ -296,6 +296,13 @@ impl ZReorderMap {
         // Sequence: read var_uint for length
         self.seq_length = self.read_var_uint()?;
 
+        // The builder never writes an empty run; a length of 0 means damaged data
+        if self.seq_length == 0 {
+            return Err(ZiporaError::invalid_data(
+                "ZReorderMap: sequence length is 0"
+            ));
+        }
+
         // Validate position after var_uint read
         if self.pos > self.mmap.len() {
             return Err(ZiporaError::invalid_data(
